@@ -83,7 +83,7 @@ def dynamic(ctx):
         if n % 2:
             order.reverse()
         prog += [{"op": "drop", "a": {"s": i}} for i in order if t["exp"][-1]["slots"][i - 1]["k"] != "dead"]
-    events = run_harness("own", prog, os.path.join(WORK, "gen_own.ev.ndjson"))
+    events = run_harness("own", prog, os.path.join(WORK, "gen_own.ev.ndjson"), ctx=ctx)
     judge_chunks(ctx, "gent_own", events)
     ctx.cov["gen_tests_replayed"] += len(tests)
     ctx.cov["traces_validated_against_impl"] += len(tests)
@@ -94,7 +94,7 @@ def dynamic(ctx):
     prog = []
     for _ in range(nhist):
         prog += rnd_history(ctx.rnd, nops)
-    events = run_harness("own", prog, os.path.join(WORK, "tr_own.ev.ndjson"))
+    events = run_harness("own", prog, os.path.join(WORK, "tr_own.ev.ndjson"), ctx=ctx)
     applicable = sum(1 for e in events if e["r"].get("k") == "ok")
     judge_chunks(ctx, "tr_own", events)
     ctx.cov["traces_validated_against_impl"] += nhist
